@@ -640,9 +640,13 @@ def c14_dimred(n, seed, procs):
         r2 = random.Random(); r2.setstate(st)
         pep, info = mk(r2)
         desc = dict(seed=seed, it=it, model=info, heuristic=heur, tol=tol, reg=reg, mode=mode)
+        # one model in four asks for a back-end that is not installed here (the documented fallback to cvxpy): same guarantees
+        import importlib.util
+        wname = "mosek" if (it % 4 == 3 and importlib.util.find_spec("mosek") is None) else "cvxpy"
+        if wname != "cvxpy": desc["wrapper"] = wname + " (not installed: falls back to cvxpy)"
         try:
             with contextlib.redirect_stdout(io.StringIO()):
-                t = pep.solve(verbose=0, solver="CLARABEL", dimension_reduction_heuristic=heur, tol_dimension_reduction=tol,
+                t = pep.solve(wrapper=wname, verbose=0, solver="CLARABEL", dimension_reduction_heuristic=heur, tol_dimension_reduction=tol,
                               eig_regularization=reg, return_primal_or_dual=mode)
         except Exception as ex:
             if type(ex).__name__ == "SolverError": continue
